@@ -200,6 +200,21 @@ CLAIMED["C19"] = dict(
     technique="Coq proof (string-splitting lemmas + field round trips for all well-formed field values) + file-level differential correspondence",
     design="5/C19")
 
+CLAIMED["C10"] = dict(
+    text=("Model of the ingestion layer: modification stripping (two regular-expression passes as a structural two-state scanner + "
+          "the ')' clean-up), the decoy purge, the peptide-to-protein mapper (remap via the digest map or file proteins, unknown -> "
+          "skip, razor filter, purge), the six cell-level row decoders and the best-score fold over all files. Theorems for all "
+          "row lists: the stored PEP of a stripped peptide is the minimum over all its PSMs with a PEP in all files, with the "
+          "proteins of a PSM attaining it, independent of row/file order; peptides built from residues and one-level (..)/[..] or "
+          "two-level parenthesised modifications strip to their residues; the purge leaves all-decoy lists alone and removes decoy "
+          "entries from lists with a target; every list the mapper passes on is pure; unknown peptides are skipped; with well-formed "
+          "identifiers every subset group is all-target or all-decoy (with C03). Correspondence on generated files of the six "
+          "formats x score types (remap or not, razor), several files with their own maps, plus a Python monitor of the property."),
+    note=COMMON_NOTE + "csv splitting, pandas' number parsing (DIA-NN), float(cell), 1-p+1e-16 and 10^x are runtime oracles tabulated "
+         "with the same primitives; parquet input and ms2rescore's eval are not modelled. Axioms: none.",
+    technique="Coq proof (fold = running minimum; token-level proof of the regex scanner; purity) + file-level differential correspondence for six formats",
+    design="5/C10")
+
 ALL = [f"C{i:02d}" for i in range(1, 21)]
 
 
